@@ -290,7 +290,7 @@ Proof.
   destruct (c =? 35).
   { unfold match_number.
     destruct (negb (isdigit (hd0 t)) || negb (isdigit (hd0 m))); [reflexivity|].
-    destruct (atoi_u m <? atoi_u t); [|reflexivity].
+    destruct (read_u m <? read_u t); [|reflexivity].
     apply H. pose proof (skip_digits_len t). cbn. lia. }
   destruct (c =? hd0 m); [|reflexivity].
   destruct m; [reflexivity|]. apply H. cbn. lia.
@@ -328,7 +328,7 @@ Proof.
   destruct (c =? 35).
   { unfold match_number.
     destruct (negb (isdigit (hd0 t)) || negb (isdigit (hd0 m))); [discriminate|].
-    destruct (atoi_u m <? atoi_u t); [|discriminate].
+    destruct (read_u m <? read_u t); [|discriminate].
     apply H. pose proof (skip_digits_len t). cbn. lia. }
   destruct (c =? hd0 m); [|discriminate].
   destruct m; [discriminate|]. apply H. cbn. lia.
@@ -455,18 +455,64 @@ Proof.
   change (10 ^ 9) with 1000000000 in *. lia.
 Qed.
 
-Lemma atoi_u_app : forall ds rest, digits ds -> (length ds <= 9)%nat ->
-  starts_with_digit rest = false -> atoi_u (ds ++ rest) = dec ds.
+Lemma fold_dstep_ge : forall x acc, digits x -> 0 <= acc -> acc <= fold_left dstep x acc.
 Proof.
-  intros ds rest Hd L Hr. unfold atoi_u. rewrite atoi_acc_take.
-  destruct (take_skip_app ds rest Hd Hr) as [-> _]. rewrite <- dec_fold. now apply dec_small.
+  intros x acc Hd Ha. rewrite fold_dstep_acc. pose proof (dec_bound x Hd) as [H0 _]. rewrite dec_fold in H0.
+  assert (1 <= 10 ^ Z.of_nat (length x)) by (apply Z.pow_le_mono_r with (b := 0) (c := Z.of_nat (length x)); lia).
+  nia.
+Qed.
+
+(* the saturating reader: the value of the digit run, capped at UINT_MAX *)
+Lemma read_acc_spec : forall s acc, 0 <= acc <= umax ->
+  read_acc acc s = Z.min (fold_left dstep (take_digits s) acc) umax.
+Proof.
+  unfold umax. induction s as [|c t IH]; intros acc Ha; cbn [read_acc take_digits]; unfold umax.
+  - cbn. lia.
+  - destruct (isdigit c) eqn:D; [|cbn; lia].
+    apply isdigit_range in D. cbn [fold_left]. unfold dstep at 2.
+    pose proof (Z.div_mod (4294967295 - (c - 48)) 10 ltac:(lia)) as Hq.
+    pose proof (Z.mod_pos_bound (4294967295 - (c - 48)) 10 ltac:(lia)) as Hr.
+    destruct (acc >? (4294967295 - (c - 48)) / 10) eqn:G.
+    + apply Z.gtb_lt in G. rewrite IH by lia.
+      pose proof (fold_dstep_ge (take_digits t) 4294967295 (take_digits_digits t) ltac:(lia)).
+      pose proof (fold_dstep_ge (take_digits t) (acc * 10 + (c - 48)) (take_digits_digits t) ltac:(lia)).
+      lia.
+    + assert (~ (4294967295 - (c - 48)) / 10 < acc) by (intros X; apply Z.gtb_lt in X; congruence).
+      apply IH. lia.
+Qed.
+
+Lemma read_u_spec : forall s, read_u s = Z.min (dec (take_digits s)) umax.
+Proof. intros s. unfold read_u. rewrite read_acc_spec by (unfold umax; lia). now rewrite <- dec_fold. Qed.
+
+Lemma dec_lt_umax : forall x, digits x -> (length x <= 9)%nat -> dec x < umax.
+Proof.
+  intros x Hd L. pose proof (dec_bound x Hd) as [H0 H1].
+  assert (10 ^ Z.of_nat (length x) <= 10 ^ 9) by (apply Z.pow_le_mono_r; lia).
+  change (10 ^ 9) with 1000000000 in *. unfold umax. lia.
+Qed.
+
+Lemma read_u_app : forall ds rest, digits ds -> (length ds <= 9)%nat ->
+  starts_with_digit rest = false -> read_u (ds ++ rest) = dec ds.
+Proof.
+  intros ds rest Hd L Hr. rewrite read_u_spec.
+  destruct (take_skip_app ds rest Hd Hr) as [-> _]. pose proof (dec_lt_umax ds Hd L). lia.
+Qed.
+
+(* below an N of at most 9 digits the reader is exact *)
+Lemma read_u_ltb : forall m ds, digits ds -> (length ds <= 9)%nat ->
+  (read_u m <? dec ds) = (dec (take_digits m) <? dec ds).
+Proof.
+  intros m ds Hd L. rewrite read_u_spec. pose proof (dec_lt_umax ds Hd L).
+  destruct (dec (take_digits m) <? dec ds) eqn:E.
+  - apply Z.ltb_lt in E. apply Z.ltb_lt. lia.
+  - apply Z.ltb_ge in E. apply Z.ltb_ge. lia.
 Qed.
 
 (* an enumeration *)
 Lemma match_path_enum : forall ds rest m,
   enum_ok ds -> starts_with_digit rest = false ->
   match_path (35 :: ds ++ rest) m =
-  if isdigit (hd0 m) && (atoi_u m <? dec ds) then match_path rest (skip_digits m) else MNull.
+  if isdigit (hd0 m) && (read_u m <? dec ds) then match_path rest (skip_digits m) else MNull.
 Proof.
   intros ds rest m (Hne & Hd & L) Hr.
   rewrite match_path_eq. unfold path_step.
@@ -476,10 +522,10 @@ Proof.
   assert (Hh : isdigit (hd0 (ds ++ rest)) = true).
   { destruct ds as [|d ds]; [congruence|]. now inversion Hd. }
   rewrite Hh. cbn [negb orb].
-  rewrite atoi_u_app by assumption.
+  rewrite read_u_app by assumption.
   destruct (take_skip_app ds rest Hd Hr) as [_ ->].
   destruct (isdigit (hd0 m)); cbn [negb andb]; [|reflexivity].
-  destruct (atoi_u m <? dec ds); reflexivity.
+  destruct (read_u m <? dec ds); reflexivity.
 Qed.
 
 (* ---- alternatives ------------------------------------------------------- *)
@@ -567,7 +613,7 @@ Fixpoint greedy (l : list seg) (k : str -> mres) (m : str) : mres :=
   | [] => k m
   | Lit s :: r => if prefixb s m then greedy r k (skipn (length s) m) else MNull
   | Enum ds :: r =>
-      if isdigit (hd0 m) && (atoi_u m <? dec ds) then greedy r k (skip_digits m) else MNull
+      if isdigit (hd0 m) && (read_u m <? dec ds) then greedy r k (skip_digits m) else MNull
   | Alt a :: r =>
       match find (fun x => prefixb x m) a with
       | Some x => greedy r k (skipn (length x) m)
@@ -654,7 +700,7 @@ Proof.
     + now destruct Hs1.
     + now apply next_ok_lit.
   - cbn [app]. rewrite match_path_enum.
-    + destruct (isdigit (hd0 m) && (atoi_u m <? dec ds)); [apply IH' | reflexivity].
+    + destruct (isdigit (hd0 m) && (read_u m <? dec ds)); [apply IH' | reflexivity].
     + exact Hs1.
     + eapply next_ok_enum; eassumption.
   - cbn [app]. rewrite <- app_assoc. cbn [app]. rewrite match_path_alt by exact Hs1.
@@ -749,34 +795,32 @@ Proof.
 Qed.
 
 Lemma greedy_sound : forall l k m r pe,
-  digit_runs_ok m -> greedy l k m = MRet r pe ->
+  Forall seg_ok l -> greedy l k m = MRet r pe ->
   exists x m', m = x ++ m' /\ spells l x /\ k m' = MRet r pe.
 Proof.
-  induction l as [|s l IH]; intros k m r pe Hm H.
+  induction l as [|s l IH]; intros k m r pe Hl H.
   - exists [], m. repeat split; [constructor | exact H].
-  - destruct s as [x|ds|a]; cbn [greedy] in H.
+  - inversion Hl as [|? ? Hs Hl']; subst. destruct s as [x|ds|a]; cbn [greedy] in H.
     + destruct (prefixb x m) eqn:P; [|discriminate].
       pose proof (prefixb_skipn _ _ P) as E.
-      assert (Hm' : digit_runs_ok (skipn (length x) m)) by (apply (digit_runs_suffix x); now rewrite <- E).
-      destruct (IH _ _ _ _ Hm' H) as (y & m' & E' & Sp & K).
+      destruct (IH _ _ _ _ Hl' H) as (y & m' & E' & Sp & K).
       exists (x ++ y), m'. repeat split; [|constructor; [constructor | assumption] | assumption].
       rewrite <- app_assoc, <- E'. exact E.
     + destruct (isdigit (hd0 m)) eqn:D; [|discriminate]. cbn [andb] in H.
-      destruct (atoi_u m <? dec ds) eqn:Lt; [|discriminate].
+      destruct Hs as (Hne & Hd & L). rewrite read_u_ltb in H by assumption.
+      destruct (dec (take_digits m) <? dec ds) eqn:Lt; [|discriminate].
       pose proof (take_skip m) as E.
-      assert (Hm' : digit_runs_ok (skip_digits m)) by (apply (digit_runs_suffix (take_digits m)); now rewrite <- E).
-      destruct (IH _ _ _ _ Hm' H) as (y & m' & E' & Sp & K).
+      destruct (IH _ _ _ _ Hl' H) as (y & m' & E' & Sp & K).
       exists (take_digits m ++ y), m'. repeat split; [| |assumption].
       * rewrite <- app_assoc, <- E'. exact E.
       * constructor; [|assumption]. constructor.
         -- now apply take_digits_nonempty.
         -- apply take_digits_digits.
-        -- rewrite <- atoi_u_run by assumption. now apply Z.ltb_lt.
+        -- now apply Z.ltb_lt.
     + destruct (find (fun z => prefixb z m) a) as [x|] eqn:F; [|discriminate].
       apply find_some in F as [Hin P].
       pose proof (prefixb_skipn _ _ P) as E.
-      assert (Hm' : digit_runs_ok (skipn (length x) m)) by (apply (digit_runs_suffix x); now rewrite <- E).
-      destruct (IH _ _ _ _ Hm' H) as (y & m' & E' & Sp & K).
+      destruct (IH _ _ _ _ Hl' H) as (y & m' & E' & Sp & K).
       exists (x ++ y), m'. repeat split; [|constructor; [now constructor | assumption] | assumption].
       rewrite <- app_assoc, <- E'. exact E.
 Qed.
@@ -836,13 +880,11 @@ Qed.
 Lemma greedy_complete : forall l x, spells l x -> forall k m',
   Forall seg_ok l -> enum_sep l -> enum_delimited l ->
   (forall a, In (Alt a) l -> prefix_free a) ->
-  starts_with_digit m' = false -> digit_runs_ok (x ++ m') ->
+  starts_with_digit m' = false ->
   greedy l k (x ++ m') = k m'.
 Proof.
-  induction 1 as [|s r x y Hs Sp IH]; intros k m' Hl Hes Hed Hpf Hm' Hruns; [reflexivity|].
+  induction 1 as [|s r x y Hs Sp IH]; intros k m' Hl Hes Hed Hpf Hm'; [reflexivity|].
   inversion Hl as [|? ? Hs1 Hr]; subst.
-  assert (Hruns' : digit_runs_ok (y ++ m')).
-  { apply (digit_runs_suffix x). now rewrite app_assoc. }
   assert (IH' : greedy r k (y ++ m') = k m').
   { apply IH; try assumption.
     - eapply enum_sep_tl; eassumption.
@@ -858,8 +900,7 @@ Proof.
     assert (Hh : isdigit (hd0 (x ++ y ++ m')) = true).
     { destruct x as [|c x]; [congruence|]. now inversion Hd. }
     rewrite Hh. cbn [andb].
-    assert (Hru : digit_runs_ok (x ++ y ++ m')) by now rewrite app_assoc.
-    rewrite (atoi_u_run _ Hru), Tk, Sk.
+    destruct Hs1 as (_ & Hdd & Ld). rewrite read_u_ltb by assumption. rewrite Tk, Sk.
     apply Z.ltb_lt in Hlt. rewrite Hlt. exact IH'.
   - destruct (find_first (fun z => prefixb z (x ++ y ++ m')) a x Hin (prefixb_app _ _))
       as (x' & F & Hin' & P).
@@ -877,7 +918,7 @@ Qed.
 (* the path theorems                                                         *)
 (* ======================================================================== *)
 Lemma addr_ok_chars : forall addr, addr_ok addr -> addr_chars addr.
-Proof. intros addr [H _]. exact H. Qed.
+Proof. intros addr H. exact H. Qed.
 
 (* a match spells the pattern: literals verbatim, every index < N, one of the
    alternatives, and the address ends / continues after '/' as the pattern
@@ -887,10 +928,10 @@ Theorem path_sound : forall p addr r pe,
   match_path (render p) addr = MRet r pe ->
   r = render_types (types p) /\ path_spec p addr pe.
 Proof.
-  intros p addr r pe Hwf [Hch Hruns] H.
+  intros p addr r pe Hwf Hch H.
   pose proof (wf_tail_cond p Hwf) as Htc. destruct Hwf as (Hs & He & Hl & Ht).
   unfold render in H. rewrite match_path_greedy in H by assumption.
-  destruct (greedy_sound _ _ _ _ _ Hruns H) as (x & m' & E & Sp & K).
+  destruct (greedy_sound _ _ _ _ _ Hs H) as (x & m' & E & Sp & K).
   subst addr. rewrite match_path_tail in K by (assumption || (eapply addr_chars_suffix; eassumption)).
   unfold path_spec. destruct (subtree p).
   - destruct m' as [|c rest]; [discriminate|].
@@ -907,7 +948,7 @@ Theorem path_complete : forall p addr pe,
   path_spec p addr pe ->
   match_path (render p) addr = MRet (render_types (types p)) pe.
 Proof.
-  intros p addr pe Hwf Hpf Hed [Hch Hruns] Hspec.
+  intros p addr pe Hwf Hpf Hed Hch Hspec.
   pose proof (wf_tail_cond p Hwf) as Htc. destruct Hwf as (Hs & He & Hl & Ht).
   unfold render. rewrite match_path_greedy by assumption.
   unfold path_spec in Hspec. destruct (subtree p) eqn:Sub.
@@ -916,7 +957,7 @@ Proof.
     rewrite match_path_tail by (assumption || (eapply addr_chars_suffix; eassumption)).
     rewrite Sub. reflexivity.
   - destruct Hspec as [Sp ->].
-    rewrite <- (app_nil_r addr) at 1. rewrite <- (app_nil_r addr) in Hruns.
+    rewrite <- (app_nil_r addr) at 1.
     rewrite (greedy_complete _ _ Sp) by (assumption || reflexivity).
     rewrite match_path_tail by (assumption || constructor).
     rewrite Sub. reflexivity.
@@ -993,11 +1034,18 @@ Proof.
   intros p s ds rest addr r pe Hwf Hsegs Hs H.
   pose proof (wf_tail_cond p Hwf) as Htc. destruct Hwf as (Hs' & He & Hl & Ht).
   unfold render in H. rewrite match_path_greedy in H by assumption.
-  rewrite Hsegs in H. cbn [greedy] in H.
+  rewrite Hsegs in H, Hs'. cbn [greedy] in H.
   destruct (prefixb s addr) eqn:P; [|discriminate].
   destruct (isdigit (hd0 (skipn (length s) addr))) eqn:D; [|discriminate]. cbn [andb] in H.
-  destruct (atoi_u (skipn (length s) addr) <? dec ds) eqn:Lt; [|discriminate].
-  rewrite (prefixb_skipn _ _ P), skip_nondigits_app by assumption. now apply Z.ltb_lt.
+  inversion Hs' as [|? ? _ Hs2]; subst. inversion Hs2 as [|? ? Hen _]; subst.
+  cbn in Hen. destruct Hen as (Hne & Hdd & Ld).
+  rewrite read_u_ltb in H by assumption.
+  destruct (dec (take_digits (skipn (length s) addr)) <? dec ds) eqn:Lt; [|discriminate].
+  apply Z.ltb_lt in Lt.
+  rewrite (prefixb_skipn _ _ P), skip_nondigits_app by assumption.
+  unfold atoi_u. rewrite atoi_acc_take, <- dec_fold.
+  pose proof (dec_lt_umax ds Hdd Ld). pose proof (dec_bound _ (take_digits_digits (skipn (length s) addr))).
+  unfold umax in *. rewrite Z.mod_small; lia.
 Qed.
 
 (* ---- rtosc_match: path and types ---------------------------------------- *)
@@ -1091,7 +1139,7 @@ Lemma pat_d4_wf : wf_pat pat_d4.
 Proof. unfold wf_pat, pat_d4. prove_wf. Qed.
 
 Lemma abc_ok : addr_ok [97; 98; 99].
-Proof. split; [repeat constructor; discriminate | apply short_runs_ok; cbn; lia]. Qed.
+Proof. repeat constructor; discriminate. Qed.
 
 (* D4: {a,ab}c, address abc: spelled by the pattern, not matched *)
 Theorem path_refuted : exists p addr,
@@ -1114,7 +1162,7 @@ Theorem enum_refuted : exists p addr,
   path_spec p addr [] /\ match_path (render p) addr = MNull.
 Proof.
   exists pat_enum_digit, [48; 49]. split; [exact pat_enum_digit_wf|].
-  split; [split; [repeat constructor; discriminate | apply short_runs_ok; cbn; lia]|].
+  split; [repeat constructor; discriminate|].
   split.
   { intros l [E|[E|[]]]; [discriminate|]. inversion E; subst.
     intros a b [<-|[<-|[]]] [<-|[<-|[]]]; cbn; intros H; try reflexivity; destruct H as [H _]; discriminate H. }
@@ -1139,6 +1187,6 @@ Theorem path_nonvacuous :
 Proof.
   split; [exact pat_doc_wf|]. split; [intros l [E|[E|[E|[]]]]; discriminate|].
   split; [exact I|]. split.
-  { split; [repeat constructor; discriminate | apply short_runs_ok; cbn; lia]. }
+  { repeat constructor; discriminate. }
   vm_compute. auto.
 Qed.
